@@ -786,7 +786,10 @@ def history(g, r, base, grid, rng, steps=9):
                 log.append('mutate T in place')
                 op = 'same'
             if op == 'fresh':
-                times = sorted(rng.sample(grid, rng.randint(1, n)))
+                if rng.random() < 0.3:      # monotone, not strictly: repeated times
+                    times = sorted(rng.choices(grid, k=rng.randint(1, n)))
+                else:
+                    times = sorted(rng.sample(grid, rng.randint(1, n)))
                 t = np.array([fl(x) for x in times])
                 res = w.get_sampled(c, t)
             elif op == 'same':
